@@ -77,6 +77,10 @@ fn main() {
             let _ = std::fs::remove_dir_all(&scratch);
             finish("C14", stats, out, start.elapsed().as_secs_f64());
         }
+        "c14-sample" => {
+            let stats = ccmon::mon_c14::sample(seed, num(&args, "--stride", 10));
+            finish("C14", stats, out, start.elapsed().as_secs_f64());
+        }
         "c14-worker" => {
             ccmon::mon_c14::worker(
                 &arg(&args, "--bases").unwrap(),
